@@ -59,6 +59,8 @@ type Conn struct {
 	closed       bool
 	deadline     time.Duration // virtual instant, 0 = none
 	armed        bool
+	wdeadline    time.Duration // write deadline (virtual instant), as net.Conn has it: a Write after it fails at once
+	warmed       bool
 	reading      bool
 
 	// callbacks, invoked without c.mu held unless stated
@@ -120,6 +122,10 @@ func (k *Conn) Write(p []byte) (int, error) {
 		k.mu.Unlock()
 		return 0, errors.New("write: broken pipe (client closed)")
 	}
+	if k.warmed && k.clk.Now() >= k.wdeadline {
+		k.mu.Unlock()
+		return 0, timeoutErr{} // os.ErrDeadlineExceeded of a real connection: nothing is written
+	}
 	k.mu.Unlock()
 	b := append([]byte{}, p...)
 	if k.WriteGate != nil {
@@ -164,9 +170,21 @@ func (k *Conn) arm(t time.Time) error {
 	}
 	return nil
 }
-func (k *Conn) SetDeadline(t time.Time) error      { return k.arm(t) }
+func (k *Conn) armWrite(t time.Time) {
+	k.mu.Lock()
+	if t.IsZero() {
+		k.warmed = false
+	} else {
+		k.warmed = true
+		k.wdeadline = k.clk.Now() + time.Until(t).Round(time.Millisecond)
+	}
+	k.mu.Unlock()
+}
+
+// SetDeadline sets the read and the write deadline, as net.Conn does.
+func (k *Conn) SetDeadline(t time.Time) error      { k.armWrite(t); return k.arm(t) }
 func (k *Conn) SetReadDeadline(t time.Time) error  { return k.arm(t) }
-func (k *Conn) SetWriteDeadline(t time.Time) error { return nil }
+func (k *Conn) SetWriteDeadline(t time.Time) error { k.armWrite(t); return nil }
 
 // ---- client side
 func (k *Conn) ClientWrite(b []byte) error {
